@@ -15,7 +15,8 @@ RULE = ("four exhaustive families: kinds = every sequence of <=L entries over 13
         "every category, entry without args, profiler 'Trace' span, M/s/f/i entries, entry with dur but no cat) "
         "after a leading host operator; times = a host op + an op + a kernel with every (ts,dur) from the "
         "integer/fractional domain x epoch offsets; ranks = R<=3 rank files with every per-rank skew in {0,1,2} "
-        "and rank ids {0..},{3,5,..}, sequential and real fork-pool parse; magnitude = timestamps/durations whose sum "
+        "and rank ids {0..},{3,5,..}, sequential and real fork-pool parse; vocab = two ranks whose symbol sets are equal or "
+        "nested, under both numberings of the later rank; magnitude = timestamps/durations whose sum "
         "crosses the int8/int16/int32 boundary while every single value fits; order = every permutation of a 5-entry "
         "file. Each world is checked after parse-only and after full load, in .json and .json.gz. "
         "non-trivial = some entry must be dropped, or a timestamp is fractional, or ranks are skewed")
@@ -118,6 +119,16 @@ def worlds(tier: str, stats: Dict[str, Any]) -> Iterator[Any]:
                                          kineto.meta_event(epoch)]
                     for mp in (False, True) if (R > 1 and skews in ((0,) * R, (2, 0, 1)[:R])) else (False,):
                         yield dict(mode="ranks", ranks=ranks, fmt="json.gz" if epoch else "json", mp=mp)
+    # --- ranks whose vocabularies are equal / supersets of one another, under both symbol numberings of the later rank
+    for numbering in ("sorted", "reverse"):
+        for variant in ("superset", "equal"):
+            for epoch in (0, E0):
+                stats["transitions"] += 1
+                r0 = [kineto.cpu_op("aten::a", epoch + 5, 9, ext=0), kineto.kernel("k1", epoch + 7, 2, 7, 20)]
+                r1 = [kineto.cpu_op("aten::a", epoch + 6, 9, ext=0), kineto.kernel("k1", epoch + 9, 2, 7, 21)]
+                if variant == "superset":
+                    r1 += [kineto.cpu_op("aten::b", epoch + 7, 2, ext=1), kineto.kernel("k0", epoch + 12, 1, 7, 22)]
+                yield dict(mode="vocab", ranks={"0": r0, "1": r1}, fmt="json", numbering=numbering)
     # --- magnitude: the parser downcasts integer columns; sums must not wrap at int8/int16/int32 boundaries
     for B in (127, 32767, 2**31 - 1):
         for ts2 in (B - 7, B):
@@ -227,12 +238,19 @@ def check(world) -> Dict[str, Any]:
     try:
         kineto.write_world(d, ranks, world.get("fmt", "json"))
         mp = bool(world.get("mp"))
-        t = Trace(trace_dir=d)
-        t.parse_traces(use_multiprocessing=mp)
-        verify(t, ranks, False, viol, "parse")
-        t2 = Trace(trace_dir=d)
-        t2.load_traces(use_multiprocessing=mp)
-        verify(t2, ranks, True, viol, "load")
+        from mc import nondet
+
+        nondet.install_symbol_seam()
+        nondet.SYM.begin("reverse" if world.get("numbering") == "reverse" else None)
+        try:
+            t = Trace(trace_dir=d)
+            t.parse_traces(use_multiprocessing=mp)
+            verify(t, ranks, False, viol, "parse")
+            t2 = Trace(trace_dir=d)
+            t2.load_traces(use_multiprocessing=mp)
+            verify(t2, ranks, True, viol, "load")
+        finally:
+            nondet.SYM.end()
     finally:
         sc.drop(d)
     rows = {r: refmodel.parse_rows(e) for r, e in ranks.items()}
@@ -240,7 +258,7 @@ def check(world) -> Dict[str, Any]:
     frac = any(isinstance(e.get("ts"), float) for evs in ranks.values() for e in evs)
     skew = len({min(x["ts"] for x in rows[r]) for r in ranks}) > 1
     outcome = (tuple(sorted((r, tuple(x["id"] for x in rows[r])) for r in rows))[:2], frac, skew, world["mode"]) \
-        if world["mode"] not in ("times", "magnitude") else (world["mode"], frac)
+        if world["mode"] not in ("times", "magnitude", "vocab") else (world["mode"], frac)
     return dict(viol=_dedupe(viol), nontrivial=bool(dropped or frac or skew), outcome=outcome, execs=2)
 
 
